@@ -20,14 +20,21 @@ open BeyondVerif.Generated
 /-- frames: a built-in Earth-centred frame (by `Frame.name`), the Hill frame, the two local
 orientations a covariance may be expressed in -/
 inductive Fr
-  | reg (name : String)
-  | hill
+  /-- `gen = 0`: the registry object `get_frame` returns; otherwise a clone made by pickle / deepcopy
+  (Frame objects compare by identity), identified by the address of a marker cell -/
+  | reg (name : String) (gen : Nat)
+  | hill (gen : Nat)
   | tnw
   | qsw
 deriving DecidableEq, Repr
 
-def Fr.isReg : Fr → Bool
-  | .reg _ => true
+def Fr.isHill : Fr → Bool
+  | .hill _ => true
+  | _ => false
+
+def Fr.isLocal : Fr → Bool
+  | .tnw => true
+  | .qsw => true
   | _ => false
 
 /-- symbolic content of a coordinate / covariance buffer -/
@@ -54,10 +61,10 @@ inductive Cell
   | list (items : List Ref)
   | man (t : Nat)
   | prop (t : Nat)
-  /-- `owned`: the array owns its memory (`self.base is None`), as after unpickling -/
-  | sv (orbit owned : Bool) (buf data : Nat)
-  /-- `ok = false`: a Cov whose `__dict__` (`_data`, `_orb_frame`) is missing, as after unpickling -/
-  | cov (ok : Bool) (v : Val) (frame : Fr) (orb : Nat) (orbFrame : Fr)
+  | sv (orbit : Bool) (buf data : Nat)
+  | cov (v : Val) (frame : Fr) (orb : Nat) (orbFrame : Fr)
+  /-- marker allocated when a Frame object is cloned (its address is the clone's identity) -/
+  | clone
 deriving DecidableEq, Repr
 
 inductive Err
@@ -105,8 +112,8 @@ def resolveForm (name : String) : Option String := FormTables.formKeys.lookup na
 /-- `get_frame` on the built-in registry -/
 def resolveFrame (name : String) : Option Fr :=
   match FormTables.frameKeys.lookup name with
-  | some n => some (.reg n)
-  | none => if FormTables.hillKeys.contains name then some .hill else none
+  | some n => some (.reg n 0)
+  | none => if FormTables.hillKeys.contains name then some (.hill 0) else none
 
 def namesOf (form : String) : List String := (FormTables.paramNames.lookup form).getD []
 
@@ -128,7 +135,6 @@ def access (form name : String) : Access :=
 
 structure SV where
   orbit : Bool
-  owned : Bool
   buf : Nat
   data : Nat
   val : Val
@@ -138,11 +144,11 @@ structure SV where
 
 def getSV (h : Heap) (a : Nat) : Option SV :=
   match h[a]? with
-  | some (.sv o own b d) =>
+  | some (.sv o b d) =>
     match h[b]?, h[d]? with
     | some (.buf v), some (.dict items) =>
       match formOf items, frameOf items with
-      | some f, some fr => some ⟨o, own, b, d, v, items, f, fr⟩
+      | some f, some fr => some ⟨o, b, d, v, items, f, fr⟩
       | _, _ => none
     | _, _ => none
   | _ => none
@@ -151,15 +157,13 @@ def mkConv (f g : String) (v : Val) : Val := if f = g then v else .conv f g v
 
 /-! ### setters -/
 
-/-- `sv.form = g` with `g` already a Form name: `self.base.setfield(self._data["form"](self, g)); self._data["form"] = g` -/
+/-- `sv.form = g` with `g` already a Form name: `self.view(ndarray)[:] = self._data["form"](self, g); self._data["form"] = g` -/
 def setFormTo (h : Heap) (a : Nat) (g : String) : Res Unit :=
   match getSV h a with
   | none => (h, .error .bad)
   | some s =>
-    if s.owned then (h, .error .attr)      -- `self.base` is None
-    else
-      let h := write h s.buf (.buf (mkConv s.form g s.val))
-      (write h s.data (.dict (insert "form" (.form g) s.items)), .ok ())
+    let h := write h s.buf (.buf (mkConv s.form g s.val))
+    (write h s.data (.dict (insert "form" (.form g) s.items)), .ok ())
 
 def setForm (h : Heap) (a : Nat) (name : String) : Res Unit :=
   match resolveForm name with
@@ -172,35 +176,41 @@ def setFrameBasic (h : Heap) (a : Nat) (fr : Fr) : Res Unit :=
   match getSV h a with
   | none => (h, .error .bad)
   | some s =>
-    if s.owned then (h, .error .attr)   -- unpickled: Frame objects differ by identity, `self.form = …` needs `self.base`
-    else if fr = s.frame then (h, .ok ())
+    if fr = s.frame then (h, .ok ())       -- identity of Frame objects
     else
       let v1 := mkConv s.form "cartesian" s.val
       match s.frame, fr with
-      | .reg x, .reg y =>
+      | .reg x _, .reg y _ =>
         let h := write h s.buf (.buf (mkConv "cartesian" s.form (.xform x y v1)))
         (write h s.data (.dict (insert "frame" (.frame fr) s.items)), .ok ())
-      | .hill, _ => (write h s.buf (.buf (mkConv "cartesian" s.form v1)), .error .runtime)
-      | _, .hill => (write h s.buf (.buf (mkConv "cartesian" s.form v1)), .error .value)
+      | .hill _, _ => (write h s.buf (.buf (mkConv "cartesian" s.form v1)), .error .runtime)
+      | _, .hill _ => (write h s.buf (.buf (mkConv "cartesian" s.form v1)), .error .value)
       | _, _ => (h, .error .bad)
 
-/-- `Cov.frame = fr` (resolved) on the covariance object at `c` -/
+/-- which error the rotation matrices of `Cov.frame = fr` run into (Hill's orientation is the string "QSW") -/
+def covRotError (cfr fr ofr : Fr) : Option Err :=
+  let m1 : Option Err :=
+    if cfr.isLocal then none
+    else if cfr ≠ ofr then (if cfr.isHill then some .attr else if ofr.isHill then some .value else none)
+    else none
+  match m1 with
+  | some e => some e
+  | none =>
+    if fr.isLocal then none
+    else if ofr ≠ fr then (if ofr.isHill then some .attr else if fr.isHill then some .value else none)
+    else none
+
+/-- `Cov.frame = fr` (resolved) on the covariance object at `c`: only the covariance itself is rewritten -/
 def covSetFrame (h : Heap) (c : Nat) (fr : Fr) : Res Unit :=
   match h[c]? with
-  | some (.cov true cv cfr orb ofr) =>
+  | some (.cov cv cfr orb ofr) =>
     if fr = cfr then (h, .ok ())
-    else if fr = .hill then (h, .error .value)
-    else if cfr = .hill ∧ ¬ (ofr = .hill ∧ (fr = .tnw ∨ fr = .qsw)) then (h, .error .attr)  -- `"QSW".convert_to`
-    else if ofr = .hill ∧ fr.isReg = true then (h, .error .attr)      -- idem, parent frame → target
-    else
-      match getSV h orb with
-      | none => (h, .error .bad)
-      | some o =>
-        let h := write h c (.cov true (.covx cfr fr ofr o.frame o.val cv) fr orb ofr)
-        match fr with
-        | .reg _ => setFrameBasic h orb fr
-        | _ => (h, .ok ())
-  | some (.cov false _ _ _ _) => (h, .error .attr)
+    else match covRotError cfr fr ofr with
+      | some e => (h, .error e)
+      | none =>
+        match getSV h orb with
+        | none => (h, .error .bad)
+        | some o => (write h c (.cov (.covx cfr fr ofr o.frame o.val cv) fr orb ofr), .ok ())
   | _ => (h, .error .bad)
 
 /-- `sv.frame = name` -/
@@ -217,8 +227,7 @@ def setFrame (h : Heap) (a : Nat) (name : String) : Res Unit :=
         match lookup "cov" s.items with
         | some (.addr c) =>
           match h[c]? with
-          | some (.cov true _ cfr _ _) => if cfr = s.frame then covSetFrame h c fr else (h, .ok ())
-          | some (.cov false _ _ _ _) => (h, .error .attr)
+          | some (.cov _ cfr _ _) => if cfr = s.frame then covSetFrame h c fr else (h, .ok ())
           | _ => (h, .error .bad)
         | _ => (h, .ok ())
 
@@ -229,13 +238,10 @@ def covFrame (h : Heap) (a : Nat) (name : String) : Res Unit :=
   | some s =>
     match lookup "cov" s.items with
     | some (.addr c) =>
-      match h[c]? with
-      | some (.cov false _ _ _ _) => (h, .error .attr)
-      | _ =>
-        let fr := if name = "TNW" then some Fr.tnw else if name = "QSW" then some Fr.qsw else resolveFrame name
-        match fr with
-        | none => (h, .error .unknownFrame)
-        | some fr => covSetFrame h c fr
+      let fr := if name = "TNW" then some Fr.tnw else if name = "QSW" then some Fr.qsw else resolveFrame name
+      match fr with
+      | none => (h, .error .unknownFrame)
+      | some fr => covSetFrame h c fr
     | _ => (h, .error .attr)    -- `None.frame = …`
 
 /-- `setattr(sv, name, x)` / `sv[name] = x` for a name that is not a property -/
@@ -255,49 +261,157 @@ def setIdx (h : Heap) (a : Nat) (i x : Nat) : Res Unit :=
   | none => (h, .error .bad)
   | some s => if i < 6 then (write h s.buf (.buf (.set s.form i x s.val)), .ok ()) else (h, .error .bad)
 
+/-! ### deep copies (`copy.deepcopy` of a metadata container, `pickle` round trip): every reachable
+object is duplicated, sharing inside the copied graph is preserved (memo), Frame objects are cloned -/
+
+abbrev Memo := List (Nat × Nat)
+
+structure DState where
+  h : Heap
+  m : Memo := []
+  fm : List (Fr × Fr) := []
+
+def cloneOf (f : Fr) (g : Nat) : Fr :=
+  match f with
+  | .reg n _ => .reg n g
+  | .hill _ => .hill g
+  | x => x
+
+def cloneFr (st : DState) (f : Fr) : DState × Fr :=
+  if f.isLocal then (st, f)     -- the strings "TNW" / "QSW"
+  else match st.fm.lookup f with
+    | some f' => (st, f')
+    | none => ({ st with h := st.h ++ [.clone], fm := (f, cloneOf f st.h.length) :: st.fm }, cloneOf f st.h.length)
+
+/-- map a function with state over a list, stopping at the first failure -/
+def deepList (f : DState → Ref → DState × Option Ref) (st : DState) : List Ref → DState × Option (List Ref)
+  | [] => (st, some [])
+  | r :: rest =>
+    match f st r with
+    | (st, none) => (st, none)
+    | (st, some r') =>
+      match deepList f st rest with
+      | (st, none) => (st, none)
+      | (st, some rest') => (st, some (r' :: rest'))
+
+/-- the copy of the object at `a` is allocated first, at `st.h.length`, as a placeholder without references,
+and entered in the memo (as `copy.deepcopy` / pickle do) -/
+def placeholder (st : DState) (a : Nat) : DState := { st with h := st.h ++ [.arr 0], m := (a, st.h.length) :: st.m }
+
+def finish (st : DState) (n : Nat) (c : Cell) : DState := { st with h := write st.h n c }
+
+def deepRef : Nat → DState → Ref → DState × Option Ref
+  | 0, st, _ => (st, none)
+  | fuel + 1, st, r =>
+    match r with
+    | .frame f => ((cloneFr st f).1, some (.frame (cloneFr st f).2))
+    | .addr a =>
+      match st.m.lookup a with
+      | some a' => (st, some (.addr a'))
+      | none =>
+        let n := st.h.length
+        let st1 := placeholder st a
+        match st.h[a]? with
+        | some (.buf v) => (finish st1 n (.buf v), some (.addr n))
+        | some (.arr t) => (finish st1 n (.arr t), some (.addr n))
+        | some (.man t) => (finish st1 n (.man t), some (.addr n))
+        | some (.prop t) => (finish st1 n (.prop t), some (.addr n))
+        | some (.list items) =>
+          match deepList (deepRef fuel) st1 items with
+          | (st2, some items') => (finish st2 n (.list items'), some (.addr n))
+          | (st2, none) => (st2, none)
+        | some (.dict items) =>
+          match deepList (deepRef fuel) st1 (items.map (·.2)) with
+          | (st2, some vs) => (finish st2 n (.dict ((items.map (·.1)).zip vs)), some (.addr n))
+          | (st2, none) => (st2, none)
+        | some (.sv o b d) =>
+          match deepList (deepRef fuel) st1 [.addr b, .addr d] with
+          | (st2, some rs) =>
+            match rs with
+            | [.addr b', .addr d'] => (finish st2 n (.sv o b' d'), some (.addr n))
+            | _ => (st2, none)
+          | (st2, none) => (st2, none)
+        | some (.cov v fr orb ofr) =>
+          let c1 := cloneFr st1 fr
+          let c2 := cloneFr c1.1 ofr
+          match deepRef fuel c2.1 (.addr orb) with
+          | (st2, some r') =>
+            match r' with
+            | .addr orb' => (finish st2 n (.cov v c1.2 orb' c2.2), some (.addr n))
+            | _ => (st2, none)
+          | (st2, none) => (st2, none)
+        | _ => (st1, none)
+    | _ => (st, some r)
+
+def deepFuel : Nat := 12
+
+/-- `pickle.loads(pickle.dumps(sv))` -/
+def pickle (h : Heap) (a : Nat) : Res Nat :=
+  match deepRef deepFuel { h := h } (.addr a) with
+  | (st, some r) =>
+    match r with
+    | .addr n => (st.h, .ok n)
+    | _ => (st.h, .error .bad)
+  | (st, none) => (st.h, .error .bad)
+
+/-- `copy.deepcopy(v)` of one metadata value -/
+def deepVal (h : Heap) (r : Ref) : Res Ref :=
+  match deepRef deepFuel { h := h } r with
+  | (st, some r') => (st.h, .ok r')
+  | (st, none) => (st.h, .error .bad)
+
 /-! ### copies -/
 
-/-- the loop `new_compl[k] = v.copy() if hasattr(v, "copy") else v` -/
-def copyItems (cp : Heap → Ref → Res Ref) (h : Heap) : Items → Res Items
+/-- the loop over `self._data.items()` in `copy()` -/
+def copyItems (cp : Heap → String → Ref → Res Ref) (h : Heap) : Items → Res Items
   | [] => (h, .ok [])
   | (k, v) :: rest =>
-    match cp h v with
+    match cp h k v with
     | (h, .error e) => (h, .error e)
     | (h, .ok v') =>
       match copyItems cp h rest with
       | (h, .error e) => (h, .error e)
       | (h, .ok rest') => (h, .ok ((k, v') :: rest'))
 
-/-- `StateVector.copy()` given the way first-level values are copied -/
-def copySVWith (cp : Heap → Ref → Res Ref) (h : Heap) (a : Nat) : Res Nat :=
+/-- `StateVector.copy()` given the way first-level values are copied:
+`self.__class__(np.array(self), **new_compl)` -/
+def copySVWith (cp : Heap → String → Ref → Res Ref) (h : Heap) (a : Nat) : Res Nat :=
   match getSV h a with
   | none => (h, .error .bad)
   | some s =>
     match copyItems cp h s.items with
     | (h, .error e) => (h, .error e)
     | (h, .ok items') =>
-      if s.owned then (h, .error .typeErr)      -- `self.__class__(self.base, …)`: len(None)
-      else
-        let (h, b) := alloc h (.buf s.val)
-        let (h, d) := alloc h (.dict items')
-        let (h, n) := alloc h (.sv s.orbit false b d)
-        (h, .ok n)
+      let (h, b) := alloc h (.buf s.val)
+      let (h, d) := alloc h (.dict items')
+      let (h, n) := alloc h (.sv s.orbit b d)
+      (h, .ok n)
 
-/-- `v.copy() if hasattr(v, "copy") else v` -/
-def copyRef : Nat → Heap → Ref → Res Ref
-  | 0, h, _ => (h, .error .bad)
-  | fuel + 1, h, r =>
+/-- is the value a list / dict (tuple, set) — what `copy()` hands to `deepcopy` unless the key is `maneuvers` -/
+def isContainer (h : Heap) (r : Ref) : Bool :=
+  match r with
+  | .addr a => match h[a]? with
+    | some (.list _) => true
+    | some (.dict _) => true
+    | _ => false
+  | _ => false
+
+/-- one entry of `_data`: `deepcopy(v)` for a free metadata container, else `v.copy() if hasattr(v, "copy") else v` -/
+def copyRef : Nat → Heap → String → Ref → Res Ref
+  | 0, h, _, _ => (h, .error .bad)
+  | fuel + 1, h, k, r =>
+    if k ≠ "maneuvers" ∧ isContainer h r = true then deepVal h r
+    else
     match r with
     | .addr a =>
       match h[a]? with
-      | some (.list items) => let (h, n) := alloc h (.list items); (h, .ok (.addr n))
+      | some (.list items) => let (h, n) := alloc h (.list items); (h, .ok (.addr n))   -- the maneuver list: `list.copy()`
       | some (.dict items) => let (h, n) := alloc h (.dict items); (h, .ok (.addr n))
       | some (.arr t) => let (h, n) := alloc h (.arr t); (h, .ok (.addr n))
       | some (.prop t) => let (h, n) := alloc h (.prop t); (h, .ok (.addr n))
       | some (.man _) => (h, .ok r)                      -- maneuver objects have no `copy`
-      | some (.cov false _ _ _ _) => (h, .error .attr)
-      | some (.cov true cv cfr orb _) =>
-        -- Cov.copy(): Cov(self.orb, self.base, frame=self.frame); the `orb` setter stores
+      | some (.cov cv cfr orb _) =>
+        -- Cov.copy(): Cov(self.orb, np.array(self), frame=self.frame); the `orb` setter stores
         -- `orb.copy(form="cartesian")` with its covariance removed; `_orb_frame = orb.frame`
         match getSV h orb with
         | none => (h, .error .bad)
@@ -310,9 +424,9 @@ def copyRef : Nat → Heap → Ref → Res Ref
             | some s' =>
               let h := write h s'.buf (.buf (mkConv s'.form "cartesian" s'.val))
               let h := write h s'.data (.dict (insert "cov" .none (insert "form" (.form "cartesian") s'.items)))
-              let (h, n) := alloc h (.cov true cv cfr o' o.frame)
+              let (h, n) := alloc h (.cov cv cfr o' o.frame)
               (h, .ok (.addr n))
-      | some (.sv _ _ _ _) =>
+      | some (.sv _ _ _) =>
         match copySVWith (copyRef fuel) h a with
         | (h, .error e) => (h, .error e)
         | (h, .ok n) => (h, .ok (.addr n))
@@ -340,30 +454,40 @@ def copyFrame (h : Heap) (a : Nat) (name : String) : Res Nat :=
     | (h, .error e) => (h, .error e)
     | (h, .ok ()) => (h, .ok n)
 
-/-- `sv.as_orbit(p)`: `Orbit(self.base, **{**self._data, "propagator": p})`; `p` is the address of the propagator -/
+/-- `sv.as_orbit(p)`: `Orbit(np.array(self), **{**StateVector.copy(self)._data, "propagator": p})`;
+`p` is the address of the propagator -/
 def asOrbit (h : Heap) (a p : Nat) : Res Nat :=
   match getSV h a with
   | none => (h, .error .bad)
   | some s =>
-    if s.owned then (h, .error .typeErr)
-    else
-      let (h, b) := alloc h (.buf s.val)
-      let (h, d) := alloc h (.dict (insert "propagator" (.addr p) s.items))
-      let (h, n) := alloc h (.sv true false b d)
-      (h, .ok n)
+    match copySV h a with
+    | (h, .error e) => (h, .error e)
+    | (h, .ok c) =>
+      match getSV h c with
+      | none => (h, .error .bad)
+      | some sc =>
+        let (h, b) := alloc h (.buf s.val)
+        let (h, d) := alloc h (.dict (insert "propagator" (.addr p) sc.items))
+        let (h, n) := alloc h (.sv true b d)
+        (h, .ok n)
 
-/-- `orbit.as_statevector()` -/
+/-- `orbit.as_statevector()`: `StateVector(np.array(self), **{self.copy()._data minus "propagator"})` -/
 def asSV (h : Heap) (a : Nat) : Res Nat :=
   match getSV h a with
   | none => (h, .error .bad)
   | some s =>
     if !s.orbit then (h, .error .attr)
-    else if s.owned then (h, .error .typeErr)
     else
-      let (h, b) := alloc h (.buf s.val)
-      let (h, d) := alloc h (.dict (erase "propagator" s.items))
-      let (h, n) := alloc h (.sv false false b d)
-      (h, .ok n)
+      match copySV h a with
+      | (h, .error e) => (h, .error e)
+      | (h, .ok c) =>
+        match getSV h c with
+        | none => (h, .error .bad)
+        | some sc =>
+          let (h, b) := alloc h (.buf s.val)
+          let (h, d) := alloc h (.dict (erase "propagator" sc.items))
+          let (h, n) := alloc h (.sv false b d)
+          (h, .ok n)
 
 /-- `sv.cov = Cov(sv, <values k>, sv.frame)` -/
 def setCov (h : Heap) (a : Nat) (k : Nat) : Res Unit :=
@@ -378,7 +502,7 @@ def setCov (h : Heap) (a : Nat) (k : Nat) : Res Unit :=
       | some s' =>
         let h := write h s'.buf (.buf (mkConv s'.form "cartesian" s'.val))
         let h := write h s'.data (.dict (insert "cov" .none (insert "form" (.form "cartesian") s'.items)))
-        let (h, c) := alloc h (.cov true (.init k) s.frame o s.frame)
+        let (h, c) := alloc h (.cov (.init k) s.frame o s.frame)
         (write h s.data (.dict (insert "cov" (.addr c) s.items)), .ok ())
 
 /-- `sv.maneuvers.append(<maneuver t>)` (the getter creates the list when it is missing) -/
@@ -395,58 +519,5 @@ def addMan (h : Heap) (a : Nat) (t : Nat) : Res Unit :=
     | _ =>
       let (h, l) := alloc h (.list [.addr m])
       (write h s.data (.dict (insert "maneuvers" (.addr l) s.items)), .ok ())
-
-/-! ### pickle round trip: a deep copy that preserves sharing (pickle's memo); arrays come back
-owning their memory and a Cov comes back without its `__dict__` -/
-
-abbrev Memo := List (Nat × Nat)
-
-def deepRef : Nat → Heap → Memo → Ref → Heap × Memo × Option Ref
-  | 0, h, m, _ => (h, m, none)
-  | fuel + 1, h, m, r =>
-    match r with
-    | .addr a =>
-      match m.lookup a with
-      | some a' => (h, m, some (.addr a'))
-      | none =>
-        let refs (h : Heap) (m : Memo) (rs : List Ref) : Heap × Memo × Option (List Ref) :=
-          rs.foldl (fun (acc : Heap × Memo × Option (List Ref)) r =>
-            match acc with
-            | (h, m, none) => (h, m, none)
-            | (h, m, some out) =>
-              match deepRef fuel h m r with
-              | (h, m, some r') => (h, m, some (out ++ [r']))
-              | (h, m, none) => (h, m, none)) (h, m, some [])
-        match h[a]? with
-        | some (.buf v) => let (h, n) := alloc h (.buf v); (h, (a, n) :: m, some (.addr n))
-        | some (.arr t) => let (h, n) := alloc h (.arr t); (h, (a, n) :: m, some (.addr n))
-        | some (.man t) => let (h, n) := alloc h (.man t); (h, (a, n) :: m, some (.addr n))
-        | some (.prop t) => let (h, n) := alloc h (.prop t); (h, (a, n) :: m, some (.addr n))
-        | some (.cov _ v fr _ ofr) => let (h, n) := alloc h (.cov false v fr 0 ofr); (h, (a, n) :: m, some (.addr n))
-        | some (.list items) =>
-          let (h, n) := alloc h (.list [])
-          match refs h ((a, n) :: m) items with
-          | (h, m, some items') => (write h n (.list items'), m, some (.addr n))
-          | (h, m, none) => (h, m, none)
-        | some (.dict items) =>
-          let (h, n) := alloc h (.dict [])
-          match refs h ((a, n) :: m) (items.map (·.2)) with
-          | (h, m, some vs) => (write h n (.dict ((items.map (·.1)).zip vs)), m, some (.addr n))
-          | (h, m, none) => (h, m, none)
-        | some (.sv o _ b d) =>
-          let (h, n) := alloc h (.sv o true 0 0)
-          match refs h ((a, n) :: m) [.addr b, .addr d] with
-          | (h, m, some [.addr b', .addr d']) => (write h n (.sv o true b' d'), m, some (.addr n))
-          | (h, m, _) => (h, m, none)
-        | none => (h, m, none)
-    | _ => (h, m, some r)
-
-def pickleFuel : Nat := 12
-
-/-- `pickle.loads(pickle.dumps(sv))` -/
-def pickle (h : Heap) (a : Nat) : Res Nat :=
-  match deepRef pickleFuel h [] (.addr a) with
-  | (h, _, some (.addr n)) => (h, .ok n)
-  | (h, _, _) => (h, .error .bad)
 
 end BeyondVerif.Heap
